@@ -435,6 +435,8 @@ class Array:
                 token_length = dtype2.bitlength
         if token_length is None:
             token_length = self.itemsize
+        if token_length == 0:
+            raise ValueError(f"The format '{fmt}' has no bits per item, so it can't be used to print an Array.")
 
         trailing_bit_length = len(self.data) % token_length
         format_sep = " : "  # String to insert on each line between multiple formats
